@@ -7,6 +7,7 @@ import (
 
 // AEA is an Albers Conical Equal Area projection.
 func AEA(this *SR) (forward, inverse Transformer, err error) {
+	this.defaultOrigin()
 
 	if math.Abs(this.Lat1+this.Lat2) < epsln {
 		err = fmt.Errorf("proj.AEA: standard Parallels cannot be equal and on opposite sides of the equator")
